@@ -85,7 +85,7 @@ def gen_dataset(rng):
     npr = np.random.RandomState(rng.randrange(2 ** 31))
     X = npr.uniform(-3, 5, size=(n, d))
     if style == "ties":
-        X = np.round(X)  # many ties incl. the extremes
+        X = np.round(X) + 0.0  # many ties incl. the extremes (whole numbers)
     elif style == "constdim":
         X[:, npr.randint(d)] = 1.25
     elif style == "grid":
@@ -210,6 +210,12 @@ def run_case(case, res):
     rng = random.Random(case["seed"])
     w = World(res, rng)
     X, y, d = gen_dataset(rng)
+    if len(y) and rng.random() < 0.2:
+        # sample arrays do not have to be float64: whole-number samples stored as integers
+        if not np.all(X == np.round(X)):
+            X = np.round(X) + 0.0
+        X = X.astype(rng.choice([np.int64, np.int32]))
+        res.count("integer_typed_samples")
     if len(y) == 0:
         real = DataSet((np.array([]), np.array([])))
         model = M(np.zeros((0, 0)), np.zeros(0))
